@@ -354,3 +354,35 @@ func H_C05_unique_float() {
 	}
 	vReach("end")
 }
+
+// datetime with every triple of separators from a small alphabet (separators that are each other's
+// defaults included): the value is judged by the layout 2006<d>01<d>02<m>15<c>04<c>05
+func H_C05_datetime_triples() {
+	alpha := []string{"-", " ", ":", "/", "T", "", "."}
+	d, m, c := alpha[vndChoice("d", len(alpha))], alpha[vndChoice("m", len(alpha))], alpha[vndChoice("c", len(alpha))]
+	layout := "2006" + d + "01" + d + "02" + m + "15" + c + "04" + c + "05"
+	rule := "datetime='" + d + "," + m + "," + c + "'"
+	mk := func(d, m, c string) string { return "2024" + d + "02" + d + "29" + m + "10" + c + "05" + c + "59" }
+	vals := []string{mk(d, m, c), mk("-", " ", ":"), mk(c, m, d), mk(m, d, c), mk(d, c, m)}
+	v := vals[vndChoice("v", len(vals))]
+	_, err := time.Parse(layout, v)
+	vAssert(vRuleViolated(Datetime, rule, v) == (err != nil), "C05 datetime: three separators, judged by the documented layout")
+	if vndBool("two") {
+		layout2 := "2006" + d + "01" + d + "02" + m + "15:04:05"
+		v2 := []string{mk(d, m, ":"), mk("-", " ", ":"), mk(m, d, ":")}[vndChoice("v2", 3)]
+		_, err2 := time.Parse(layout2, v2)
+		vAssert(vRuleViolated(Datetime, "datetime='"+d+","+m+"'", v2) == (err2 != nil), "C05 datetime: two separators, judged by the documented layout")
+	}
+	vReach("end")
+}
+
+// in / include with a custom message that itself contains brackets, slashes and quotes-free text
+func H_C05_in_message_brackets() {
+	v := []string{"low", "mid", "high", "high)", "hig", "see docs", "x"}[vndChoice("v", 7)]
+	msg := []string{"pick one (see docs)", "one of (low/mid/high)", ")", "a/b"}[vndChoice("msg", 4)]
+	want := !(v == "low" || v == "mid" || v == "high")
+	vAssert(vRuleViolated(In, "in=(low/mid/high)|"+msg, v) == want, "C05 in: the option list ends at its own bracket, whatever the message contains")
+	wantInc := !(strings.Contains(v, "ow") || strings.Contains(v, "igh"))
+	vAssert(vRuleViolated(Include, "include=(ow/igh)|"+msg, v) == wantInc, "C05 include: the option list ends at its own bracket, whatever the message contains")
+	vReach("end")
+}
